@@ -561,6 +561,32 @@ def rejected_corpus():
         REG("A", 1, 8, [F("x", "uint", 0, 2, enum={"name": "E", "variants": [("P", 0), ("P", 1)]})])]}, "names_unique")
     r["enum_value_too_big"] = ({"config": dict(U8LE), "objects": [
         REG("A", 1, 8, [F("x", "uint", 0, 2, enum={"name": "E", "variants": [("P", 0), ("Q", 9)]})])]}, "enum_values")
+    # SEVERAL independent errors of one kind in one input: which one is reported must not depend on the run (seed C20-8
+    # grouped the claimed addresses in a HashMap and reported the collision of whichever group came first)
+    V8 = lambda: [F("v", "uint", 0, 8)]
+    r["addr_overlap_two_places"] = ({"config": dict(U8LE), "objects": [
+        REG("Ra", 0, 8, V8()), REG("Rb", 0, 8, V8()), REG("Rc", 7, 8, V8()), REG("Rd", 7, 8, V8())]}, "address_overlap")
+    r["addr_overlap_six_places"] = ({"config": {"register_address_type": "u8", "command_address_type": "u8", "default_byte_order": "LE"}, "objects":
+        [REG(f"R{c}{k}", 10 * i, 8, V8()) for i, c in enumerate("abcd") for k in "xy"]
+        + [CMD(f"C{c}{k}", 3 + i) for i, c in enumerate("ab") for k in "xy"]}, "address_overlap")
+    r["addr_overlap_in_blocks"] = ({"config": dict(U8LE), "objects": [
+        BLK("Ba", [REG("Ia", 1, 8, V8()), REG("Ib", 1, 8, V8())], address_offset=20),
+        BLK("Bb", [REG("Ic", 2, 8, V8()), REG("Id", 2, 8, V8())], address_offset=40),
+        REG("Top", 21, 8, V8())]}, "address_overlap")
+    r["bit_overlap_three_registers"] = ({"config": dict(U8LE), "objects": [
+        REG(f"Bo{c}", i, 8, [F("x", "uint", 0, 5), F("y", "uint", 4, 8)]) for i, c in enumerate("abc")]}, "bit_overlap")
+    r["ranges_bad_in_three_registers"] = ({"config": dict(U8LE), "objects": [
+        REG(f"Rg{c}", i, 8, [F("x", "uint", 0, 9 + i)]) for i, c in enumerate("abc")]}, "bit_ranges")
+    r["dup_names_three_pairs"] = ({"config": dict(U8LE), "objects": [
+        REG("Foo", 0, 8, [F("a", "uint", 0, 4), F("A", "uint", 4, 8)]), REG("Bar", 1, 8, [F("b", "uint", 0, 4), F("B", "uint", 4, 8)]),
+        REG("Baz", 2, 8, [F("c", "uint", 0, 4), F("C", "uint", 4, 8)])]}, "names_unique")
+    r["enum_errors_three"] = ({"config": dict(U8LE), "objects": [
+        REG(f"En{c}", i, 8, [F("x", "uint", 0, 2, enum={"name": f"E{c}", "variants": [("P", 0), ("Q", 9 + i)]})]) for i, c in enumerate("abc")]},
+        "enum_values")
+    r["resets_too_big_three"] = ({"config": dict(U8LE), "objects": [
+        REG(f"Rs{c}", i, 8, V8(), reset_value=0x1FF + i) for i, c in enumerate("abc")]}, "reset")
+    r["addresses_too_big_three"] = ({"config": dict(U8LE), "objects": [
+        REG(f"Ab{c}", 300 + i, 8, V8()) for i, c in enumerate("abc")]}, "address_types")
     # dangling register ref WITH a reset override: reset_values_converted runs before refs_validated and
     # panics in `.expect("Refs have been validated already ...")` (model: Abort; CLI: no output, 101)
     r["dangling_with_reset_panics"] = ({"config": dict(U8LE), "objects": [REF("P", "register", "Nowhere", address=1, reset_value=5)]}, "library_panic")
